@@ -157,6 +157,7 @@ Definition dispatch (n : Z) (args : list Z) : list Z :=
   | 12 => with1 d_rd args e_hash
   | 13 => with1 d_rd args (fun d => [e_b (rd_bool d)])
   | 14 => with1 d_rd args (fun d => [e_b (has_time d)])
+  | 15 => with2 d_dt d_dt args (fun a b => e_res e_rd (mk_diff a b))
   (* C16 additions *)
   | 30 => with5 d_z d_pos d_z d_pos d_kw args (fun yn yd mn md k => e_res e_rd (mk_frac yn yd mn md k))
   | 31 => with1 d_rd args (fun d => e_res e_rd (mk (fields_of d)))
